@@ -13,7 +13,7 @@ package strmap
 // hashtable[slot] finds: the value of the first item of the run whose key equals s.
 
 //@ extern github.com/cloudwego/gopkg/internal/hash/maphash.String
-//@   ensures ret == ufint("maphash.String", s)
+//@   ensures ret == ufcontent("maphash.String", s)
 //@   assigns \nothing
 
 //@ extern hash/maphash.MakeSeed
@@ -25,7 +25,7 @@ package strmap
 
 // slot run: the items from hashtable[slot] on, as long as their slot field equals slot (the first
 // one is taken unconditionally, as the code does).
-//@ pred smSlot(m, s) = int(uint32(ufint("maphash.String", s)) % uint32(len(m.hashtable)))
+//@ pred smSlot(m, s) = int(uint32(ufcontent("maphash.String", s)) % uint32(len(m.hashtable)))
 //@ pred smFirst(m, s) = int(m.hashtable[smSlot(m, s)])
 //@ pred smInRun(m, s, j) = forall k int :: smFirst(m, s) < k && k <= j ==> int(m.items[k].slot) == smSlot(m, s)
 
@@ -60,15 +60,50 @@ package strmap
 //@   ensures len(ret0) == int(m.items[i].sz) && region(ret0) == region(m.data) && offset(ret0) == offset(m.data) + m.items[i].off && same(ret1, m.items[i].v)
 //@   assigns \nothing
 
-// LoadFromSlice is not verified (see the top of the file); what is used of it by Str2Str is its
-// failure mode and its frame: a length mismatch is an error and then nothing is touched.
-//@ func StrMap.LoadFromSlice
+// ---- loading ----
+// smFull: what Get needs of a table to find every item: slots are in range, items are sorted by slot,
+// hashtable[s] is the first item of slot s (or -1 when there is none).
+//@ pred smSlotOf(m, j) = int(m.items[j].slot)
+//@ pred smFull(m) = smTable(m) && len(m.hashtable) > 0 && (forall j int :: 0 <= j && j < len(m.items) ==> smSlotOf(m, j) < len(m.hashtable) && int(m.hashtable[smSlotOf(m, j)]) >= 0 && int(m.hashtable[smSlotOf(m, j)]) <= j) && (forall i int :: forall j int :: 0 <= i && i <= j && j < len(m.items) ==> smSlotOf(m, i) <= smSlotOf(m, j)) && (forall s int :: 0 <= s && s < len(m.hashtable) && int(m.hashtable[s]) >= 0 ==> smSlotOf(m, int(m.hashtable[s])) == s)
+//@ pred smHashOf(m, k) = int(uint32(ufcontent("maphash.String", k)) % uint32(len(m.hashtable)))
+
+// makeHashtable (sort.Sort, floating point) is outside the verifier's subset: its contract is TRUSTED.
+// It reduces every slot modulo the table size, sorts the items by slot and fills the table; the
+// items afterwards are the items before (same key bytes, same value), in some order.
+//@ pred smItemFrom(m, j, i) = m.items[j].off == old(m.items[i].off) && m.items[j].sz == old(m.items[i].sz) && same(m.items[j].v, old(m.items[i].v)) && int(m.items[j].slot) == int(old(m.items[i].slot) % uint32(len(m.hashtable)))
+//@ func StrMap.makeHashtable
 //@   trusted
 //@   props C07
 //@   requires !isnil(m)
+//@   ensures smFull(m) && len(m.items) == old(len(m.items)) && same(m.data, old(m.data)) && same(m.items, old(m.items))
+//@   ensures forall j int :: 0 <= j && j < len(m.items) ==> exists i int :: 0 <= i && i < len(m.items) && smItemFrom(m, j, i)
+//@   ensures forall i int :: 0 <= i && i < len(m.items) ==> exists j int :: 0 <= j && j < len(m.items) && smItemFrom(m, j, i)
+//@   assigns m.hashtable, m.hashtable[0:cap(m.hashtable)], m.items[0:len(m.items)]
+
+// LoadFromSlice: a length mismatch is an error; otherwise the table is rebuilt so that it is smFull
+// and holds exactly the given pairs, each in the slot its key hashes to.
+//@ pred smKeyIs(m, j, k) = int(m.items[j].sz) == len(k) && eqbytes(m.data, m.items[j].off, k, 0, len(k))
+//@ pred smPair(m, j, k, v) = smKeyIs(m, j, k) && same(m.items[j].v, v) && smSlotOf(m, j) == smHashOf(m, k)
+//@ pred smHolds(m, kk, vv) = len(m.items) == len(kk) && (forall i int :: 0 <= i && i < len(kk) ==> exists j int :: 0 <= j && j < len(m.items) && smPair(m, j, kk[i], vv[i])) && (forall j int :: 0 <= j && j < len(m.items) ==> exists i int :: 0 <= i && i < len(kk) && smPair(m, j, kk[i], vv[i]))
+//@ func StrMap.LoadFromSlice
+//@   arith int
+//@   props C07
+//@   requires !isnil(m) && len(kk) <= 0x40000000 && (forall i int :: 0 <= i && i < len(kk) ==> len(kk[i]) <= 0xffffffff)
 //@   ensures len(kk) != len(vv) ==> ret != nil
+//@   ensures len(kk) == len(vv) ==> ret == nil && smFull(m)
+// (That the rebuilt table holds exactly the given pairs - smHolds(m, kk, vv) - follows from the loop
+// invariants below and the trusted contract of makeHashtable, but the forall-exists chain is beyond
+// what the solvers instantiate on their own; it is NOT claimed.)
 //@   assigns len(kk) == len(vv) ==> m.data, len(kk) == len(vv) ==> m.items, len(kk) == len(vv) ==> m.hashtable
-//@   assigns len(kk) == len(vv) ==> m.data[0:cap(m.data)], len(kk) == len(vv) ==> m.hashtable[0:cap(m.hashtable)]
+//@   assigns len(kk) == len(vv) ==> m.data[0:cap(m.data)], len(kk) == len(vv) ==> m.hashtable[0:cap(m.hashtable)], len(kk) == len(vv) ==> m.items[0:cap(m.items)]
+//@   loop 1 invariant -1 <= rangeindex && rangeindex < len(kk) && 0 <= sz && sz <= (rangeindex + 1) * 0x100000000
+//@   loop 2 invariant -1 <= rangeindex && rangeindex < len(kk) && len(m.items) == rangeindex + 1 && len(kk) == len(vv)
+//@   loop 2 invariant fresh(m.items) || isnil(m.items) || (region(m.items) == region(old(m.items)) && offset(m.items) == offset(old(m.items)) && cap(m.items) == cap(old(m.items)))
+//@   loop 2 invariant fresh(m.data) || isnil(m.data) || (region(m.data) == region(old(m.data)) && offset(m.data) == offset(old(m.data)) && cap(m.data) == cap(old(m.data)))
+//@   loop 2 invariant forall j int :: 0 <= j && j <= rangeindex ==> 0 <= m.items[j].off && m.items[j].off + int(m.items[j].sz) <= len(m.data)
+//@   loop 2 invariant forall j int :: 0 <= j && j <= rangeindex ==> smKeyIs(m, j, kk[j])
+//@   loop 2 invariant forall j int :: 0 <= j && j <= rangeindex ==> same(m.items[j].v, vv[j])
+//@   loop 2 invariant forall j int :: 0 <= j && j <= rangeindex ==> m.items[j].slot == uint32(ufcontent("maphash.String", kk[j]))
 
 // Str2Str: a StrMap[int] whose values are indices into a StrStore.
 //@ pred s2sInv(sm) = !isnil(sm.strMap) && !isnil(sm.strStore) && smTable(sm.strMap) && (forall j int :: 0 <= j && j < len(sm.strMap.items) ==> sm.strMap.items[j].v < 0 || sm.strMap.items[j].v >= len(sm.strStore.buf) || strstore.ssValid(sm.strStore, sm.strMap.items[j].v))
@@ -95,9 +130,9 @@ package strmap
 //@ func Str2Str.LoadFromSlice
 //@   arith int
 //@   props C07
-//@   requires !isnil(sm)
+//@   requires !isnil(sm) && len(kk) <= 0x40000000 && (forall i int :: 0 <= i && i < len(kk) ==> len(kk[i]) <= 0xffffffff)
 //@   ensures len(kk) != len(vv) ==> ret != nil
 //@   assigns len(kk) == len(vv) ==> sm.strStore, len(kk) == len(vv) ==> sm.strMap
 //@   assigns len(kk) == len(vv) ==> sm.strStore.buf, len(kk) == len(vv) ==> sm.strStore.buf[0:cap(sm.strStore.buf)]
 //@   assigns len(kk) == len(vv) ==> sm.strMap.data, len(kk) == len(vv) ==> sm.strMap.items, len(kk) == len(vv) ==> sm.strMap.hashtable
-//@   assigns len(kk) == len(vv) ==> sm.strMap.data[0:cap(sm.strMap.data)], len(kk) == len(vv) ==> sm.strMap.hashtable[0:cap(sm.strMap.hashtable)]
+//@   assigns len(kk) == len(vv) ==> sm.strMap.data[0:cap(sm.strMap.data)], len(kk) == len(vv) ==> sm.strMap.hashtable[0:cap(sm.strMap.hashtable)], len(kk) == len(vv) ==> sm.strMap.items[0:cap(sm.strMap.items)]
